@@ -234,6 +234,85 @@ func c20idOrder(c *fw.Check) {
 			asc("attribute-groups/module-list", la)
 			asc("metadata/module-list", lm)
 		}
+		// the same sets next to attribute groups that are USED BUT NOT DEFINED (the documented
+		// exception: materialised as empty groups): whatever is listed and printed ascends.
+		if len(ids) > 3 {
+			return
+		}
+		for _, u1 := range universe {
+			for _, u2 := range universe {
+				if u2 < u1 {
+					continue
+				}
+				und := []int{u1}
+				if u2 != u1 {
+					und = append(und, u2)
+				}
+				clash := false
+				for _, k := range ids {
+					for _, u := range und {
+						if k == u {
+							clash = true
+						}
+					}
+				}
+				if clash {
+					continue
+				}
+				for _, undFirst := range []bool{false, true} {
+					var b strings.Builder
+					uses := func() {
+						for i := len(und) - 1; i >= 0; i-- { // descending order of first use
+							fmt.Fprintf(&b, "declare void @u%d() #%d\n", und[i], und[i])
+						}
+					}
+					if undFirst {
+						uses()
+					}
+					for i := len(ids) - 1; i >= 0; i-- {
+						fmt.Fprintf(&b, "declare void @f%d() #%d\n", ids[i], ids[i])
+					}
+					if !undFirst {
+						uses()
+					}
+					for i := len(ids) - 1; i >= 0; i-- {
+						fmt.Fprintf(&b, "attributes #%d = { \"k%d\" }\n", ids[i], ids[i])
+					}
+					text := b.String()
+					c.DistinctN(1)
+					m, errs, pan := parseTry(text)
+					if errs != "" || pan != "" {
+						c.Violation("id-order/undefined-groups/parse-fails", c20case{Kind: "id-order", A: fw.Trunc(errs+pan, 300), Got: text})
+						continue
+					}
+					var y string
+					if pp := fw.Try(func() { y = m.String() }); pp != "" {
+						c.Violation("id-order/undefined-groups/print-panics", c20case{Kind: "id-order", A: pp, Got: text})
+						continue
+					}
+					c.Valid(1)
+					ascending := func(kind string, got []int) {
+						for i := 1; i < len(got); i++ {
+							if got[i-1] >= got[i] {
+								c.Violation("id-order/undefined-groups/"+kind+"/not-ascending", c20case{Kind: "id-order", A: fmt.Sprintf("order %v", got), B: fmt.Sprintf("defined %v, used but undefined %v", ids, und), Got: fw.Trunc(y, 1200)})
+								return
+							}
+						}
+					}
+					var printed, listed []int
+					for _, mm := range reAttr.FindAllStringSubmatch(y, -1) {
+						var k int
+						fmt.Sscan(mm[1], &k)
+						printed = append(printed, k)
+					}
+					for _, a := range m.AttrGroupDefs {
+						listed = append(listed, int(a.ID))
+					}
+					ascending("printed", printed)
+					ascending("module-list", listed)
+				}
+			}
+		}
 	})
 }
 
